@@ -7,7 +7,7 @@ open Lean PrefVerif PrefVerif.Driver
 
 namespace PrefVerif.Driver.Domains
 
-def optB (b : Bool) (v : Bool) : Json := if b then toJson v else Json.null
+def optB (b : Bool) (v : Unit → Bool) : Json := if b then toJson (v ()) else Json.null
 
 /-- single-peakedness (weak or strict orders): axis tests, witness checks, brute force -/
 def sp : Handler := fun j => do
@@ -24,9 +24,9 @@ def sp : Handler := fun j => do
         | .ok b => toJson b | .typeError => toJson "TypeError" | _ => toJson "other"))),
     ("axisSpec", toJson (axes.map (fun ax => Spec.spOnAxis orders ax))),
     ("witnessOk", toJson (witnesses.map (fun ax => Spec.spWitness alts orders ax))),
-    ("bruteSP", optB brute (Spec.bruteSP alts orders)),
+    ("bruteSP", optB brute (fun _ => Spec.bruteSP alts orders)),
     ("rows", toJson rows),
-    ("bruteC1P", optB brute (Spec.bruteC1P alts.length rows))]
+    ("bruteC1P", optB brute (fun _ => Spec.bruteC1P alts.length rows))]
 
 def sc : Handler := fun j => do
   let alts ← arg (α := List Nat) j "alts"
@@ -39,7 +39,7 @@ def sc : Handler := fun j => do
     ("modelSeqOk", toJson (!v || Spec.scWitness alts orders s)),
     ("modelConflict", toJson (SingleCrossing.isSCConflictSets orders)),
     ("witnessOk", toJson (witnesses.map (fun w => Spec.scWitness alts orders w))),
-    ("bruteSC", optB brute (Spec.bruteSC alts orders))]
+    ("bruteSC", optB brute (fun _ => Spec.bruteSC alts orders))]
 
 def spt : Handler := fun j => do
   let alts ← arg (α := List Nat) j "alts"
@@ -51,7 +51,7 @@ def spt : Handler := fun j => do
     ("model", toJson m.isSome), ("modelTree", toJson (m.getD [])),
     ("modelTreeOk", toJson (match m with | none => true | some t => Spec.sptWitness alts orders t)),
     ("witnessOk", toJson (witnesses.map (fun t => Spec.sptWitness alts orders t))),
-    ("bruteSPT", optB brute (Spec.bruteSPT alts orders))]
+    ("bruteSPT", optB brute (fun _ => Spec.bruteSPT alts orders))]
 
 /-- consecutive ones: rows are lists of column indices holding a 1 -/
 def c1p : Handler := fun j => do
@@ -61,6 +61,6 @@ def c1p : Handler := fun j => do
   let brute := argD j "brute" false
   return obj [
     ("witnessOk", toJson (witnesses.map (fun w => Spec.c1pWitness n rows w))),
-    ("bruteC1P", optB brute (Spec.bruteC1P n rows))]
+    ("bruteC1P", optB brute (fun _ => Spec.bruteC1P n rows))]
 
 end PrefVerif.Driver.Domains
